@@ -69,8 +69,14 @@ class CollectionValue(GenericValue):
                 )
                 continue
 
-            if contains_unmanaged(old_value):
-                # Is(...) and similar parts are controlled by the user
+            if contains_unmanaged(old_value) or (
+                old_node is not None
+                and any(
+                    isinstance(n, (ast.JoinedStr, ast.Starred))
+                    for n in ast.walk(old_node)
+                )
+            ):
+                # Is(...), f-strings and similar parts are controlled by the user
                 continue
 
             # check for update
